@@ -477,12 +477,16 @@ def minimise(e, kind, st, cache, mcache):
     return res
 
 
+def count_nodes(e, tag):
+    return (1 if e[0] == tag else 0) + sum(count_nodes(k, tag) for k in kids(e))
+
+
 def family(m):
     """Defect family of a minimised failing expression, from the constructors it still needs."""
     names = {'Eq': 'Cmp', 'Ne': 'Cmp', 'IsN': 'IsNone', 'IsNN': 'IsNone', 'N': 'Not'}
     cs = set(names.get(c, c) for c in constructors(m))
     if 'If' in cs:
-        if cs <= {'If', 'Not'}: return 'ifexp-nested'
+        if cs <= {'If', 'Not'}: return 'ifexp-nested' if count_nodes(m, 'If') >= 2 else 'ifexp-single'
         if 'Const' in cs: return 'ifexp+constant'
         return 'ifexp+boolop'
     if 'Const' in cs: return 'constant-operand'
